@@ -158,6 +158,7 @@ class Validate:
     raises = ["ValidationError", "NonTrivialDependency"]
     allow_star = True
     havoc_arrays = ["g:ran", "gi:when"]
+    ordered_filter = True  # the generator handed to the recursive call keeps the list order
     shards = 8
     kinds = {
         "validators": "list",
